@@ -791,7 +791,7 @@ func (h *c09H) tryF(p, fam string, req []byte, limit int64, closeWrite bool, fau
 	replay := map[string]any{"proto": p, "fam": fam, "req_hex": fmt.Sprintf("%x", req), "limit": limit, "close_write": closeWrite,
 		"fault": c09FaultCoq[fault], "observed": out, "heights": h.heightsJSON()}
 	obs := map[string]string{"reset": "SReset", "resetlimit": "SResetLimit", "notfound": "SNF", "internal": "SINT", "ok": "SOK"}[out.Class]
-	term := zv.App("SHandle", p, zv.Bytes(req), h.heightsCoq(), zv.Z(limit), zv.Bool(w.BuildOK), c09FaultCoq[fault], obs,
+	term := zv.App("SHandle", p, zv.Bytes(req), "hs", zv.Z(limit), zv.Bool(w.BuildOK), c09FaultCoq[fault], obs,
 		zv.Nat(out.Opened), zv.Nat(out.Closed), zv.Z(out.Reserved), zv.Z(out.Released))
 	key := ""
 	if fam != "valid" {
@@ -899,7 +899,8 @@ func TestVerifC09(t *testing.T) {
 	defer r.Finish()
 	rng := r.Rand()
 	h := newC09(t, r)
-	h.g = r.Group("server", c09Header, "scase", "server_mismatches")
+	// the stored heights and their EDS widths are the same for every case of a run: named once in the header
+	h.g = r.Group("server", c09Header+"Definition hs : list (Z * Z) := "+h.heightsCoq()+".\n", "scase", "server_mismatches")
 	const lim = int64(1) << 30
 
 	// ---- replay of one recorded request
